@@ -1,14 +1,16 @@
 // C12 (pipeline half, engine H): the real http::server::Server on a real loop, driven single-threaded over a real
-// socket (unix-domain or loopback TCP). A history = client requests (kind, handler completion delay, segmentation) and
-// loop passes. Every history is replayed in a forked child on a fresh loop + server + connection.
+// socket (unix-domain or loopback TCP). A history = client requests (kind, handler completion delay, segmentation, connection,
+// response size, next() deferral), client-side close + reconnect, and loop passes. Every history is replayed in a forked child on
+// a fresh loop + server + connection(s).
 //
-// usage: pipeline_harness <unix|tcp> <epoll|select> <depth> [maxreq]
-//        pipeline_harness <unix|tcp> <epoll|select> replay "<history text>"
+// usage: pipeline_harness <unix|tcp> <epoll|select> <depth> [maxreq] [lane]        lanes: see main()
+//        pipeline_harness <unix|tcp> <epoll|select> replay "<history text>" [lane]
 #include "hist/hist.h"
 #include <tbox/network/tcp_server.cpp>          // TcpServer::Data is file-local: needed for the canonical state
 #include <tbox/http/server/server.h>
 #include <tbox/http/server/server_imp.h>
 #include <tbox/http/server/context.h>
+#include <tbox/http/server/middleware.h>
 #include <tbox/network/buffered_fd.h>
 #include <tbox/network/sockaddr.h>
 #include <tbox/event/loop.h>
@@ -33,37 +35,110 @@ using namespace tbox; using namespace tbox::event; using namespace tbox::http; u
 extern "C" int epoll_wait(int epfd, struct epoll_event *ev, int maxev, int) { return (int)syscall(SYS_epoll_wait, epfd, ev, maxev, 0); }
 extern "C" int select(int nfds, fd_set *r, fd_set *w, fd_set *e, struct timeval *) { struct timeval z = {0, 0}; return (int)syscall(SYS_select, nfds, r, w, e, &z); }
 
-enum { REQ, PASS, RAW };                     // RAW: a malformed request (crash/hang freedom only; ends the judged part of the history)
-enum { KEEP, CLOSE, HTTP10 };                 // HTTP/1.1 keep-alive | HTTP/1.1 + Connection: close | HTTP/1.0 (no Connection header)
+enum { REQ, PASS, RAW, RECONN };             // RAW: a malformed request (crash/hang freedom only; ends the judged part of that connection)
+                                             // RECONN: the client closes its side of the connection in slot c (whatever is outstanding) and opens a new one
+// request kinds = HTTP version x Connection header; `closing` is the reference model's reading of "asked for the connection to be closed"
+enum { KEEP, CLOSE, HTTP10, KEEP11H, KEEP10H, KEEP10TE, CLOSE11TE, NKIND };
+struct KindDef { const char *name, *ver, *conn; bool closing; };
+static const KindDef kKindDef[NKIND] = {
+  {"keep", "HTTP/1.1", nullptr, false}, {"close", "HTTP/1.1", "close", true}, {"http10", "HTTP/1.0", nullptr, true},
+  {"keep11h", "HTTP/1.1", "keep-alive", false}, {"keep10h", "HTTP/1.0", "keep-alive", false}, {"keep10te", "HTTP/1.0", "keep-alive, TE", false}, {"close11te", "HTTP/1.1", "TE, close", true}};
 enum { ALONE, GLUED, CUT, CUTM };             // own segment | same segment as the next request | cut into two segments in the middle (a pass in between) | cut inside the method token
 enum { BAD_CONTENT_LENGTH, BAD_METHOD };
-struct Op { int k, kind, delay, seg; };
-static const char *kKind[] = {"keep", "close", "http10"}, *kSeg[] = {"alone", "glued", "cut", "cutm"}, *kRaw[] = {"bad-content-length", "bad-method"};
+// conn = client slot (0|1); nd = passes by which the first callback defers next() (two-callback lane); big = the handler's response does not fit the socket buffer
+struct Op { int k, kind, delay, seg, conn, nd, big; };
+static Op mkreq(int kind, int d, int seg, int conn = 0, int nd = 0, int big = 0) { return Op{REQ, kind, d, seg, conn, nd, big}; }
+static const char *kSeg[] = {"alone", "glued", "cut", "cutm"}, *kRaw[] = {"bad-content-length", "bad-method"};
 static const char *kRawText[] = {"POST /x HTTP/1.1\r\nContent-Length: abc\r\n\r\n", "BREW /x HTTP/1.1\r\nContent-Length: 0\r\n\r\n"};
 
-static std::string g_transport = "unix", g_engine = "epoll";
+static std::string g_transport = "unix", g_engine = "epoll", g_lane = "";
+// configuration of the closed system, chosen by the lane
+static int g_nclients = 1;              // connections open from the start (lane multi: 2)
+static bool g_two_callbacks = false;    // lane mw: use(callback) that defers next() + use(Middleware*) that answers
+static bool g_small_sndbuf = false;     // lane big: the server side of the connection has a minimal SO_SNDBUF, so a big response is written in several partial writes
+static bool g_ctxlog = false;           // setContextLogEnable(true): Request/Respond::toString() evaluated for the log line
+static const size_t kBigPad = 12000;
+static void set_lane(const std::string &l) {
+  g_lane = l;
+  if (l == "multi") { g_nclients = 2; g_ctxlog = true; }
+  if (l == "mw") { g_two_callbacks = true; g_ctxlog = true; }
+  if (l == "big") { g_small_sndbuf = true; g_ctxlog = true; }
+}
 
+// The implementation's bookkeeping is part of the canonical state only (never of the oracle). Private fields of the http server classes are read by
+// name where the name exists; a tree that renamed or replaced one still builds (the object's scalar words stand in for it), so such a change is judged
+// by the oracle instead of stopping the check with a compile error.
+static bool g_field_missing = false;
+#define OPT_FIELD(fn, expr, dflt) \
+  template <class T> static auto fn(T *p, int) -> decltype((long)(expr)) { return (long)(expr); } \
+  template <class T> static long fn(T *, long) { g_field_missing = true; return dflt; }
+OPT_FIELD(f_req_index, p->req_index, -9)
+OPT_FIELD(f_res_index, p->res_index, -9)
+OPT_FIELD(f_close_index, (p->close_index == std::numeric_limits<int>::max() ? -1 : p->close_index), -9)
+OPT_FIELD(f_parked, p->res_buff.size(), -9)
+OPT_FIELD(f_content_length, p->content_length_, -9)
+OPT_FIELD(f_conns, p->conns_.size(), -9)
+template <class T> static auto parked_keys(T *p, int) -> decltype(p->res_buff.begin()->first, std::string()) { std::string s; for (auto &kv : p->res_buff) s += std::to_string(kv.first) + ","; return s; }
+template <class T> static std::string parked_keys(T *, long) { g_field_missing = true; return "?"; }
+template <class T> static std::string raw_scalars(T *obj) {     // small integers (and INT_MAX marks) among the object's 32-bit words; words of pointer-like 64-bit words are skipped
+  std::string s; const int32_t *w = (const int32_t *)obj; size_t n = sizeof(T) / 4;
+  for (size_t i = 0; i + 1 < n; i += 2) {
+    if (w[i + 1] >= 0x1000 && w[i + 1] < 0x7fffffff) continue;
+    for (size_t j = i; j < i + 2; j++) if ((w[j] >= -1 && w[j] < 0x1000) || w[j] == 0x7fffffff) s += std::to_string(j) + ":" + std::to_string(w[j]) + ",";
+  }
+  return s;
+}
+
+static std::string req_body(int i) { return "b" + std::to_string(i) + "xyz"; }
 static std::string req_text(int i, int kind) {
-  std::string body = "b" + std::to_string(i) + "xyz";
-  return "POST /r" + std::to_string(i) + (kind == HTTP10 ? " HTTP/1.0\r\n" : " HTTP/1.1\r\n") + (kind == CLOSE ? "Connection: close\r\n" : "")
+  std::string body = req_body(i); const KindDef &kd = kKindDef[kind];
+  return "POST /r" + std::to_string(i) + " " + kd.ver + "\r\n" + (kd.conn ? std::string("Connection: ") + kd.conn + "\r\n" : std::string())
          + "Content-Length: " + std::to_string(body.size()) + "\r\n\r\n" + body;
 }
 
 static std::string show_op(const Op &o);
 struct Pending { int idx; int due; ContextSptr ctx; };
-struct World {
-  Loop *loop = nullptr; Server *srv = nullptr; int cfd = -1; std::string sock_path;
-  int pass_no = 0;
-  std::vector<int> segs; std::vector<int> kinds, delays;             // per request issued by the client (index = request number)
-  std::vector<bool> sent;                     // the client has issued write() for all of its bytes (a refused write is the server's doing)
-  std::string out;                            // client-side bytes not yet written (glued requests)
-  std::vector<int> out_reqs;                  // requests contained in `out`
-  std::vector<int> delivered;                 // request numbers in the order the handler saw them
-  std::vector<Pending> pending;
-  std::string rx; bool eof = false; size_t rx_at_eof = 0; bool wr_failed = false;
-  std::string viol;
-  int completed = 0; bool verbose = false; bool malformed_sent = false;
+struct PendingNext { int idx; int due; NextFunc next; };
+struct Client {                               // one connection as the client sees it
+  int fd = -1; int slot = 0;
+  std::vector<int> reqs;                      // request numbers issued on this connection, in order
+  std::string out; std::vector<int> out_reqs; // client-side bytes not yet written (glued requests) and the requests they contain
+  std::string rx; bool eof = false; bool wr_failed = false, malformed_sent = false, client_closed = false;
+  std::vector<int> tags; size_t parsed_to = 0;
+};
+struct World;
+struct FinalMw : Middleware { World *w = nullptr; void handle(ContextSptr ctx, const NextFunc &next) override; };
 
+struct World {
+  Loop *loop = nullptr; Server *srv = nullptr; std::string sock_path; struct sockaddr_in tcp_sa; socklen_t tcp_sl = 0;
+  int pass_no = 0;
+  std::vector<Client> cl; int cur[2] = {-1, -1}; int reconns = 0;      // every connection ever opened; the live one per client slot
+  std::vector<int> segs, kinds, delays, nds, bigs, owner;             // per request issued by a client (index = request number); owner = index into cl
+  std::vector<bool> sent;                     // the client has issued write() for all of its bytes (a refused write is the server's doing)
+  std::vector<int> delivered;                 // request numbers in the order the (first) handler saw them
+  std::vector<int> finals;                    // request numbers in the order the answering handler saw them
+  std::vector<Pending> pending; std::vector<PendingNext> pnext;
+  FinalMw final_mw;
+  std::string viol;
+  int completed = 0; bool verbose = false;
+
+  bool connect_client(int slot) {
+    Client c; c.slot = slot;
+    if (g_transport == "unix") {
+      c.fd = socket(AF_UNIX, SOCK_STREAM, 0); struct sockaddr_un sa; memset(&sa, 0, sizeof sa); sa.sun_family = AF_UNIX; strncpy(sa.sun_path, sock_path.c_str(), sizeof(sa.sun_path) - 1);
+      if (connect(c.fd, (struct sockaddr *)&sa, sizeof sa) != 0) return false;
+    } else {
+      c.fd = socket(AF_INET, SOCK_STREAM, 0); int one = 1; setsockopt(c.fd, IPPROTO_TCP, TCP_NODELAY, &one, sizeof one);
+      if (connect(c.fd, (struct sockaddr *)&tcp_sa, tcp_sl) != 0) return false;
+    }
+    fcntl(c.fd, F_SETFL, fcntl(c.fd, F_GETFL) | O_NONBLOCK);
+    cur[slot] = (int)cl.size(); cl.push_back(c);
+    return true;
+  }
+  size_t tcp_conns() { return srv->impl_->tcp_server_.d_->conns.size(); }
+  void shrink_server_sndbuf() {
+    srv->impl_->tcp_server_.d_->conns.foreach([&](network::TcpConnection *c) { if (c->sp_buffered_fd_) { int v = 1024; setsockopt(c->sp_buffered_fd_->fd().get(), SOL_SOCKET, SO_SNDBUF, &v, sizeof v); } });
+  }
   bool setup() {
     signal(SIGPIPE, SIG_IGN);
     loop = Loop::New(g_engine); if (!loop) return false;
@@ -74,41 +149,57 @@ struct World {
       addr = network::SockAddr(network::DomainSockPath(sock_path));
     } else addr = network::SockAddr::FromString("127.0.0.1:0");
     if (!srv->initialize(addr, 4)) return false;
-    srv->use([this](ContextSptr ctx, const NextFunc &) { on_request(ctx); });
+    if (g_ctxlog) srv->setContextLogEnable(true);
+    final_mw.w = this;
+    if (g_two_callbacks) { srv->use([this](ContextSptr ctx, const NextFunc &next) { on_first(ctx, next); }); srv->use(&final_mw); }
+    else srv->use([this](ContextSptr ctx, const NextFunc &) { int i = on_first(ctx, NextFunc()); if (i >= 0) on_final(ctx); });
     if (!srv->start()) return false;
-    if (g_transport == "unix") {
-      cfd = socket(AF_UNIX, SOCK_STREAM, 0); struct sockaddr_un sa; memset(&sa, 0, sizeof sa); sa.sun_family = AF_UNIX; strncpy(sa.sun_path, sock_path.c_str(), sizeof(sa.sun_path) - 1);
-      if (connect(cfd, (struct sockaddr *)&sa, sizeof sa) != 0) return false;
-    } else {
+    if (g_transport == "tcp") {
       int lfd = srv->impl_->tcp_server_.d_->sp_acceptor->sock_fd_.get();
-      struct sockaddr_in sa; socklen_t sl = sizeof sa; if (getsockname(lfd, (struct sockaddr *)&sa, &sl) != 0) return false;
-      cfd = socket(AF_INET, SOCK_STREAM, 0); int one = 1; setsockopt(cfd, IPPROTO_TCP, TCP_NODELAY, &one, sizeof one);
-      if (connect(cfd, (struct sockaddr *)&sa, sl) != 0) return false;
+      tcp_sl = sizeof tcp_sa; if (getsockname(lfd, (struct sockaddr *)&tcp_sa, &tcp_sl) != 0) return false;
     }
-    fcntl(cfd, F_SETFL, fcntl(cfd, F_GETFL) | O_NONBLOCK);
-    for (int i = 0; i < 5 && srv->impl_->conns_.empty(); i++) raw_pass();
-    return srv->impl_->conns_.size() == 1;
+    for (int s = 0; s < g_nclients; s++) {
+      if (!connect_client(s)) return false;
+      for (int i = 0; i < 5 && tcp_conns() < (size_t)s + 1; i++) raw_pass();        // accepted one by one: connection s is in cabinet slot s
+    }
+    if (g_small_sndbuf) shrink_server_sndbuf();
+    return tcp_conns() == (size_t)g_nclients;
   }
   void teardown() {
-    pending.clear();                              // late completions after the history: the server must cope (connection may be gone)
-    if (cfd >= 0) close(cfd);
+    pending.clear(); pnext.clear();               // late completions after the history: the server must cope (connection may be gone)
+    for (auto &c : cl) if (c.fd >= 0) { close(c.fd); c.fd = -1; }
     for (int i = 0; i < 3; i++) raw_pass();
     srv->cleanup(); delete srv; srv = nullptr;
     loop->runNext([] {}); loop->runLoop(Loop::Mode::kOnce);
     delete loop; loop = nullptr;
   }
 
-  void on_request(ContextSptr ctx) {
+  static std::string resp_body(int i, bool big) { return "r" + std::to_string(i) + (big ? std::string(kBigPad, 'x') : std::string()); }
+
+  // first callback of the chain = "the request is handed to a handler": identify it, compare it with what the client sent
+  int on_first(ContextSptr ctx, const NextFunc &next) {
     Request &q = ctx->req();
     int i = -1; if (q.url.path.size() >= 3 && q.url.path.compare(0, 2, "/r") == 0) i = atoi(q.url.path.c_str() + 2);
-    if (i < 0 || i >= (int)kinds.size()) { viol = "handler-got-a-request-the-client-never-sent path=" + q.url.path; return; }
-    std::string want_body = "b" + std::to_string(i) + "xyz";
-    if (q.method != Method::kPost || q.body != want_body || q.http_ver != (kinds[i] == HTTP10 ? HttpVer::k1_0 : HttpVer::k1_1)
-        || (kinds[i] == CLOSE) != (q.headers.count("Connection") == 1)) { viol = "request-handed-to-handler-differs-from-request-sent r" + std::to_string(i); return; }
-    for (int d : delivered) if (d == i) { viol = "request-handed-to-handler-twice r" + std::to_string(i); return; }
-    if (!delivered.empty() && delivered.back() > i) { viol = "requests-handed-to-handler-out-of-order r" + std::to_string(i); return; }
+    if (i < 0 || i >= (int)kinds.size()) { viol = "handler-got-a-request-the-client-never-sent path=" + q.url.path; return -1; }
+    const KindDef &kd = kKindDef[kinds[i]]; auto hc = q.headers.find("Connection");
+    if (q.method != Method::kPost || q.body != req_body(i) || q.http_ver != (!strcmp(kd.ver, "HTTP/1.0") ? HttpVer::k1_0 : HttpVer::k1_1)
+        || (kd.conn ? (hc == q.headers.end() || hc->second != kd.conn) : hc != q.headers.end())) { viol = "request-handed-to-handler-differs-from-request-sent r" + std::to_string(i); return -1; }
+    for (int d : delivered) if (d == i) { viol = "request-handed-to-handler-twice r" + std::to_string(i); return -1; }
+    for (int d : delivered) if (owner[d] == owner[i] && d > i) { viol = "requests-handed-to-handler-out-of-order r" + std::to_string(i); return -1; }
     delivered.push_back(i);
-    ctx->res().status_code = StatusCode::k200_OK; ctx->res().body = "r" + std::to_string(i);
+    if (g_two_callbacks) {
+      if (nds[i] == 0) next();                                                           // next() inside the first callback
+      else pnext.push_back(PendingNext{i, pass_no + nds[i], next});                       // next() `nd` passes later, from a loop callback
+    }
+    return i;
+  }
+  // the answering handler (the single callback, or the Middleware object behind next())
+  void on_final(ContextSptr ctx) {
+    Request &q = ctx->req(); int i = atoi(q.url.path.c_str() + 2);
+    if (i < 0 || i >= (int)kinds.size() || q.url.path.compare(0, 2, "/r") != 0) { viol = "handler-got-a-request-the-client-never-sent path=" + q.url.path; return; }
+    for (int d : finals) if (d == i) { viol = "request-handed-to-handler-twice r" + std::to_string(i) + " (answering handler)"; return; }
+    finals.push_back(i);
+    ctx->res().status_code = StatusCode::k200_OK; ctx->res().body = resp_body(i, bigs[i]);
     if (delays[i] > 0) pending.push_back(Pending{i, pass_no + delays[i], ctx});      // completes `delay` passes later
     else completed++;                                                                  // completes inside the request callback
   }
@@ -116,144 +207,193 @@ struct World {
   void raw_pass() { loop->runNext([] {}); loop->runLoop(Loop::Mode::kOnce); }
   void pass() {
     pass_no++;
-    // handlers due in this pass complete from a loop callback (after the pass' fd events), in request order
+    // deferred next() calls and handlers due in this pass run from a loop callback (after the pass' fd events), in request order
+    for (auto &p : pnext) if (p.due <= pass_no) { int idx = p.idx; loop->runNext([this, idx] { call_next(idx); }); }
     for (auto &p : pending) if (p.due <= pass_no) { int idx = p.idx; loop->runNext([this, idx] { complete(idx); }); }
     raw_pass();
     if (g_transport == "tcp") tcp_drain();
-    client_read();
+    for (size_t ci = 0; ci < cl.size(); ci++) if (cl[ci].fd >= 0) client_read((int)ci);
   }
   void complete(int idx) {
     for (size_t i = 0; i < pending.size(); i++) if (pending[i].idx == idx) { ContextSptr c = pending[i].ctx; pending.erase(pending.begin() + i); completed++; c.reset(); return; }
   }
+  void call_next(int idx) {
+    for (size_t i = 0; i < pnext.size(); i++) if (pnext[i].idx == idx) { NextFunc f = pnext[i].next; pnext.erase(pnext.begin() + i); f(); return; }
+  }
   // loopback TCP: wait until everything either side wrote has reached the peer's receive queue (keeps replay deterministic)
   void tcp_drain() {
-    std::vector<int> fds; fds.push_back(cfd);
+    std::vector<int> fds; for (auto &c : cl) if (c.fd >= 0) fds.push_back(c.fd);
     srv->impl_->tcp_server_.d_->conns.foreach([&](network::TcpConnection *c) { if (c->sp_buffered_fd_) fds.push_back(c->sp_buffered_fd_->fd().get()); });
     // SIOCOUTQNSD = bytes not yet sent (unacknowledged bytes do not count: on loopback "sent" means queued at the peer, and a delayed ACK would cost 40 ms)
     for (int fd : fds) for (int spin = 0; spin < 400; spin++) { int q = 0; if (ioctl(fd, SIOCOUTQNSD, &q) != 0 || q == 0) break; usleep(50); }
   }
-  void client_write(const std::string &bytes) {
-    size_t off = 0;
-    while (off < bytes.size()) { ssize_t n = send(cfd, bytes.data() + off, bytes.size() - off, MSG_NOSIGNAL); if (n <= 0) { wr_failed = true; return; } off += (size_t)n; }
+  void client_write(int ci, const std::string &bytes) {
+    size_t off = 0; Client &c = cl[ci];
+    while (off < bytes.size()) { ssize_t n = send(c.fd, bytes.data() + off, bytes.size() - off, MSG_NOSIGNAL); if (n <= 0) { c.wr_failed = true; return; } off += (size_t)n; }
     if (g_transport == "tcp") tcp_drain();
   }
-  void client_read() {
-    char b[4096];
-    for (;;) { ssize_t n = recv(cfd, b, sizeof b, 0); if (n > 0) { if (eof) viol = "bytes-received-after-eof"; rx.append(b, (size_t)n); continue; }
-      if (n == 0 && !eof) { eof = true; rx_at_eof = rx.size(); }
-      if (n < 0 && errno == ECONNRESET && !eof) { eof = true; rx_at_eof = rx.size(); }
+  void client_read(int ci) {
+    char b[16384]; Client &c = cl[ci];
+    for (;;) { ssize_t n = recv(c.fd, b, sizeof b, 0); if (n > 0) { if (c.eof) viol = "bytes-received-after-eof"; c.rx.append(b, (size_t)n); continue; }
+      if (n == 0 && !c.eof) c.eof = true;
+      if (n < 0 && errno == ECONNRESET && !c.eof) c.eof = true;
       break; }
-    check_stream(false);
+    check_stream(ci, false);
   }
 
-  int first_closing() const { for (size_t i = 0; i < kinds.size(); i++) if (sent[i] && kinds[i] != KEEP) return (int)i; return -1; }
+  // position (within the connection's request sequence) of the first request that asked for the connection to be closed; -1 = none
+  int first_closing(const Client &c) const { for (size_t p = 0; p < c.reqs.size(); p++) if (sent[c.reqs[p]] && kKindDef[kinds[c.reqs[p]]].closing) return (int)p; return -1; }
+  static std::string rn(int i) { return "r" + std::to_string(i); }
 
-  // Parse the client's byte stream into responses; tags must be 0,1,2,... (one response per request, request order).
-  std::vector<int> tags; size_t parsed_to = 0;
-  void check_stream(bool final) {
+  // Parse one connection's byte stream into responses: one response per request of THIS connection, in request order, each the handler's response.
+  void check_stream(int ci, bool final) {
     if (!viol.empty()) return;
-    tags.clear(); size_t pos = 0; int c = first_closing();
-    while (pos < rx.size()) {
-      size_t he = rx.find("\r\n\r\n", pos); if (he == std::string::npos) break;
-      std::string head = rx.substr(pos, he - pos);
+    Client &k = cl[ci];
+    k.tags.clear(); size_t pos = 0; int c = first_closing(k);
+    while (pos < k.rx.size()) {
+      size_t he = k.rx.find("\r\n\r\n", pos); if (he == std::string::npos) break;
+      std::string head = k.rx.substr(pos, he - pos);
       if (head.compare(0, 9, "HTTP/1.1 ") != 0) { viol = "client-stream-malformed-response-head"; return; }
-      size_t cl = head.find("Content-Length: "); if (cl == std::string::npos) { viol = "client-stream-response-without-content-length"; return; }
-      size_t n = (size_t)atoi(head.c_str() + cl + 16); if (he + 4 + n > rx.size()) break;
-      std::string body = rx.substr(he + 4, n); pos = he + 4 + n;
+      size_t cle = head.find("Content-Length: "); if (cle == std::string::npos) { viol = "client-stream-response-without-content-length"; return; }
+      size_t n = (size_t)atoi(head.c_str() + cle + 16); if (he + 4 + n > k.rx.size()) break;
+      std::string body = k.rx.substr(he + 4, n); pos = he + 4 + n;
       int t = (body.size() >= 2 && body[0] == 'r') ? atoi(body.c_str() + 1) : -1;
-      if (head.compare(9, 6, "200 OK") != 0 || t < 0) { viol = "response-is-not-the-handlers-response status/body=" + head.substr(9, 12) + "/" + body; return; }
-      for (int x : tags) if (x == t) { viol = "response-written-twice r" + std::to_string(t); return; }
-      if (c >= 0 && t > c) { viol = "requests-after-connection-close-are-answered r" + std::to_string(t) + "-answered-after-closing-r" + std::to_string(c); return; }
-      if (t != (int)tags.size()) { viol = "responses-out-of-request-order got-r" + std::to_string(t) + "-at-position-" + std::to_string(tags.size()); return; }
-      tags.push_back(t);
+      if (head.compare(9, 6, "200 OK") != 0 || t < 0 || t >= (int)kinds.size() || body != resp_body(t, bigs[t])) { viol = "response-is-not-the-handlers-response status/body=" + head.substr(9, 12) + "/" + body.substr(0, 24) + (body.size() > 24 ? "...(" + std::to_string(body.size()) + " bytes)" : ""); return; }
+      if (owner[t] != ci) { viol = "response-written-to-another-connection " + rn(t) + "-of-connection-" + std::to_string(owner[t]) + "-received-on-connection-" + std::to_string(ci); return; }
+      for (int x : k.tags) if (x == t) { viol = "response-written-twice " + rn(t); return; }
+      int tp = -1; for (size_t p = 0; p < k.reqs.size(); p++) if (k.reqs[p] == t) tp = (int)p;
+      if (c >= 0 && tp > c) { viol = "requests-after-connection-close-are-answered " + rn(t) + "-answered-after-closing-" + rn(k.reqs[c]); return; }
+      if (tp != (int)k.tags.size()) { viol = "responses-out-of-request-order got-" + rn(t) + "-at-position-" + std::to_string(k.tags.size()); return; }
+      k.tags.push_back(t);
     }
-    parsed_to = pos;
-    if (c >= 0 && (int)tags.size() > c && rx.size() > parsed_to) { viol = "bytes-written-after-the-response-to-the-closing-request"; return; }
-    if (final && rx.size() > parsed_to) { viol = "client-stream-ends-with-a-partial-response"; return; }
+    k.parsed_to = pos;
+    if (c >= 0 && (int)k.tags.size() > c && k.rx.size() > k.parsed_to) { viol = "bytes-written-after-the-response-to-the-closing-request"; return; }
+    if (final && k.rx.size() > k.parsed_to) { viol = "client-stream-ends-with-a-partial-response" + std::string(k.eof ? " (connection closed by the server)" : ""); return; }
   }
 
+  void flush_out(int ci) { Client &c = cl[ci]; std::string b = c.out; c.out.clear(); std::vector<int> rs = c.out_reqs; c.out_reqs.clear(); client_write(ci, b); for (int r : rs) sent[r] = true; }
   void apply(const Op &o) {
     if (o.k == PASS) { pass(); return; }
-    if (o.k == RAW) { out += kRawText[o.kind]; flush_out(); malformed_sent = true; pass(); return; }
-    int i = (int)kinds.size(); kinds.push_back(o.kind); delays.push_back(o.delay); sent.push_back(false); segs.push_back(o.seg);
+    if (o.k == RECONN) {                       // client side closes (responses outstanding or not), then a new connection from the same client slot
+      Client &old = cl[cur[o.conn]]; close(old.fd); old.fd = -1; old.client_closed = true; reconns++;
+      if (!connect_client(o.conn)) { viol = "harness-reconnect-failed errno=" + std::to_string(errno); return; }
+      pass(); return; }
+    int ci = cur[o.conn];
+    if (o.k == RAW) { cl[ci].out += kRawText[o.kind]; flush_out(ci); cl[ci].malformed_sent = true; pass(); return; }
+    int i = (int)kinds.size(); kinds.push_back(o.kind); delays.push_back(o.delay); sent.push_back(false); segs.push_back(o.seg); nds.push_back(o.nd); bigs.push_back(o.big); owner.push_back(ci);
+    cl[ci].reqs.push_back(i);
     std::string t = req_text(i, o.kind);
-    if (o.seg == GLUED) { out += t; out_reqs.push_back(i); return; }
-    if (o.seg == ALONE) { out += t; out_reqs.push_back(i); flush_out(); pass(); return; }
+    if (o.seg == GLUED) { cl[ci].out += t; cl[ci].out_reqs.push_back(i); return; }
+    if (o.seg == ALONE) { cl[ci].out += t; cl[ci].out_reqs.push_back(i); flush_out(ci); pass(); return; }
     // CUT: everything glued so far + the first half in one segment, a pass, then the second half, a pass
     size_t half = o.seg == CUTM ? 2 : t.size() / 2;
-    out += t.substr(0, half); std::string first = out; out.clear(); std::vector<int> rs = out_reqs; out_reqs.clear();
-    client_write(first); for (int r : rs) sent[r] = true;
+    cl[ci].out += t.substr(0, half); std::string first = cl[ci].out; cl[ci].out.clear(); std::vector<int> rs = cl[ci].out_reqs; cl[ci].out_reqs.clear();
+    client_write(ci, first); for (int r : rs) sent[r] = true;
     pass();
-    client_write(t.substr(half)); sent[i] = true;
+    client_write(ci, t.substr(half)); sent[i] = true;
     pass();
   }
-  void flush_out() { std::string b = out; out.clear(); std::vector<int> rs = out_reqs; out_reqs.clear(); client_write(b); for (int r : rs) sent[r] = true; }
 
   std::string canon() {
     std::string c; char b[256];
     Server::Impl *im = srv->impl_;
-    snprintf(b, sizeof b, "conns=%zu tcp=%zu|", im->conns_.size(), im->tcp_server_.d_->conns.size()); c += b;
-    for (auto *cn : im->conns_) {
-      snprintf(b, sizeof b, "req=%d res=%d close=%d ps=%d cl=%zd parked=", cn->req_index, cn->res_index, cn->close_index == std::numeric_limits<int>::max() ? -1 : cn->close_index,
-               (int)cn->req_parser.state_, cn->req_parser.state_ == RequestParser::State::kInit ? (ssize_t)0 : (ssize_t)cn->req_parser.content_length_); c += b;
-      for (auto &kv : cn->res_buff) c += std::to_string(kv.first) + ",";
-      c += "|";
-    }
-    im->tcp_server_.d_->conns.foreach([&](network::TcpConnection *tc) {
+    g_field_missing = false;
+    snprintf(b, sizeof b, "conns=%ld tcp=%zu|", f_conns(im, 0), tcp_conns()); c += b;
+    im->tcp_server_.d_->conns.foreach([&](network::TcpConnection *tc) {      // cabinet slot order
+      Server::Impl::Connection *cn = static_cast<Server::Impl::Connection *>(tc->getContext());
+      if (!cn) c += "conn=null ";
+      else {
+        bool idle = cn->req_parser.state() == RequestParser::State::kInit;
+        snprintf(b, sizeof b, "req=%ld res=%ld close=%ld ps=%d cl=%ld parked=", f_req_index(cn, 0), f_res_index(cn, 0), f_close_index(cn, 0), (int)cn->req_parser.state(), idle ? 0L : f_content_length(&cn->req_parser, 0)); c += b;
+        c += parked_keys(cn, 0);
+        if (g_field_missing) c += " raw=" + raw_scalars(cn);
+        c += " ";
+      }
       network::BufferedFd *bf = tc->sp_buffered_fd_;
       if (!bf) { c += "bfd=null|"; return; }
-      snprintf(b, sizeof b, "bfd st=%d rb=%zu sb=%zu wev=%d|", (int)bf->state_, bf->recv_buff_.readableSize(), bf->send_buff_.readableSize(), bf->sp_write_event_ ? (int)bf->sp_write_event_->isEnabled() : -1); c += b; });
-    CommonLoop *cl = static_cast<CommonLoop *>(loop);
-    snprintf(b, sizeof b, "next=%zu|", cl->run_next_func_queue_.size()); c += b;
+      // send buffer: empty or not (how many bytes the kernel took in one write is the environment's business)
+      snprintf(b, sizeof b, "bfd st=%d rb=%zu sb=%d wev=%d|", (int)bf->state_, bf->recv_buff_.readableSize(), (int)(bf->send_buff_.readableSize() > 0), bf->sp_write_event_ ? (int)bf->sp_write_event_->isEnabled() : -1); c += b; });
+    CommonLoop *lp = static_cast<CommonLoop *>(loop);
+    snprintf(b, sizeof b, "next=%zu|", lp->run_next_func_queue_.size()); c += b;
     c += "pend="; for (auto &p : pending) c += std::to_string(p.idx) + "@" + std::to_string(p.due - pass_no) + ",";
-    c += "|glued="; for (int r : out_reqs) c += std::string(kKind[kinds[r]]) + std::to_string(delays[r]) + ",";
-    int fc = first_closing();
-    snprintf(b, sizeof b, "|issued=%zu closing=%d delivered=%zu got=%zu eof=%d wrfail=%d bad=%d", kinds.size(), fc, delivered.size(), tags.size(), (int)eof, (int)wr_failed, (int)malformed_sent); c += b;
+    c += "|pnext="; for (auto &p : pnext) c += std::to_string(p.idx) + "@" + std::to_string(p.due - pass_no) + "d" + std::to_string(delays[p.idx]) + ",";
+    snprintf(b, sizeof b, "|issued=%zu delivered=%zu answering=%zu reconns=%d", kinds.size(), delivered.size(), finals.size(), reconns); c += b;
+    for (int s = 0; s < g_nclients; s++) {
+      Client &k = cl[cur[s]];
+      c += "|c" + std::to_string(s) + " reqs="; for (int r : k.reqs) c += std::to_string(r) + ",";
+      c += " glued="; for (int r : k.out_reqs) c += std::string(kKindDef[kinds[r]].name) + std::to_string(delays[r]) + (nds[r] ? "n" + std::to_string(nds[r]) : "") + (bigs[r] ? "B" : "") + ",";
+      snprintf(b, sizeof b, " closing=%d got=%zu partial=%d eof=%d wrfail=%d bad=%d", first_closing(k), k.tags.size(), (int)(k.rx.size() > k.parsed_to), (int)k.eof, (int)k.wr_failed, (int)k.malformed_sent); c += b;
+    }
     return c;
   }
 
-  // after the history: let everything complete, then the end-to-end oracle
+  size_t total_rx() { size_t n = 0; for (auto &c : cl) n += c.rx.size() + (c.eof ? 1 : 0); return n; }
+  // after the history: let everything complete, then the end-to-end oracle, connection by connection
   void settle_and_judge() {
-    for (int i = 0; i < 4 || (!pending.empty() && i < 10); i++) { pass(); if (verbose) printf("settle pass %d: %s\n", i + 1, canon().c_str()); }
-    if (!viol.empty()) return;
-    int c = first_closing();
-    if (g_transport == "tcp" && c >= 0 && !eof) { struct pollfd p = {cfd, POLLIN, 0}; poll(&p, 1, 200); client_read(); }
-    check_stream(true); if (!viol.empty()) return;
-    if (malformed_sent) return;      // after a malformed request only crash/hang freedom and the stream-level rules (no duplicate, order, nothing after close) are judged
+    size_t last = total_rx(); int quiet = 0;
+    for (int i = 0; i < 200 && (i < 4 || !pending.empty() || !pnext.empty() || quiet < 3); i++) {
+      pass(); size_t n = total_rx(); quiet = n == last ? quiet + 1 : 0; last = n;
+      if (verbose) printf("settle pass %d: %s\n", i + 1, canon().c_str());
+      if (!viol.empty()) return;
+    }
+    for (size_t ci = 0; ci < cl.size() && viol.empty(); ci++) judge((int)ci);
+  }
+  void judge(int ci) {
+    Client &k = cl[ci];
+    if (k.client_closed) return;     // the client went away: whatever it had received obeyed the stream rules (checked at every read); the rest is crash/hang freedom
+    int c = first_closing(k);
+    if (g_transport == "tcp" && c >= 0 && !k.eof) { struct pollfd p = {k.fd, POLLIN, 0}; poll(&p, 1, 200); client_read(ci); }
+    check_stream(ci, true); if (!viol.empty()) return;
+    if (k.malformed_sent) return;      // after a malformed request only crash/hang freedom and the stream-level rules (no duplicate, order, nothing after close) are judged
     // a request that never reaches the handler (connection dropped by a parse failure, ...) is the root cause of whatever else is missing: report it first
-    for (size_t i = 0; i < kinds.size(); i++) {
-      if (!sent[i] || (c >= 0 && (int)i > c)) continue;
-      bool got = false; for (int d : delivered) if (d == (int)i) got = true;
-      if (!got) { viol = std::string(segs[i] == CUTM ? "request-cut-inside-method-token-never-handed-to-handler r" : "request-never-handed-to-handler r") + std::to_string(i) + (eof ? " (connection closed by the server)" : ""); return; }
+    for (size_t p = 0; p < k.reqs.size(); p++) {
+      int i = k.reqs[p];
+      if (!sent[i] || (c >= 0 && (int)p > c)) continue;
+      bool got = false; for (int d : delivered) if (d == i) got = true;
+      if (!got) { viol = std::string(segs[i] == CUTM ? "request-cut-inside-method-token-never-handed-to-handler " : "request-never-handed-to-handler ") + rn(i) + " (" + kKindDef[kinds[i]].name + (p ? std::string(", after ") + kKindDef[kinds[k.reqs[p - 1]]].name : std::string()) + ")" + (k.eof ? " (connection closed by the server)" : ""); return; }
     }
-    for (int i : delivered) {
-      bool answered = i < (int)tags.size();
-      if (c >= 0 && i > c) { if (!answered) { viol = "requests-after-connection-close-are-handed-to-handler-not-answered r" + std::to_string(i); return; } continue; }
+    for (size_t p = 0; p < k.reqs.size(); p++) {
+      int i = k.reqs[p]; bool handed = false; for (int d : delivered) if (d == i) handed = true;
+      if (!handed) continue;
+      bool answered = p < k.tags.size();
+      if (c >= 0 && (int)p > c) { if (!answered) { viol = "requests-after-connection-close-are-handed-to-handler-not-answered " + rn(i); return; } continue; }
       if (!answered) {
-        std::string sg = std::string("response-never-written-to-") + (i == c ? "closing-request" : c >= 0 ? "request-before-closing-request" : "keep-alive-request")
-                       + (delays[i] ? "-handler-completes-after-callback" : "-handler-completes-in-callback");
-        viol = sg + " r" + std::to_string(i) + " handler-delay=" + std::to_string(delays[i]) + (eof ? " (connection already closed by the server)" : ""); return; }
+        std::string sg = std::string("response-never-written-to-") + ((int)p == c ? "closing-request" : c >= 0 ? "request-before-closing-request" : "keep-alive-request")
+                       + (bigs[i] ? "-big-response" : "") + (delays[i] || nds[i] ? "-handler-completes-after-callback" : "-handler-completes-in-callback");
+        viol = sg + " " + rn(i) + " handler-delay=" + std::to_string(delays[i] + nds[i]) + (k.eof ? " (connection already closed by the server)" : ""); return; }
     }
-    if (c >= 0 && (int)tags.size() > c && !eof) { viol = "connection-not-closed-after-the-response-to-the-closing-request"; return; }
+    if (c >= 0 && (int)k.tags.size() > c && !k.eof) { viol = "connection-not-closed-after-the-response-to-the-closing-request"; return; }
   }
 };
+void FinalMw::handle(ContextSptr ctx, const NextFunc &) { w->on_final(ctx); }
 
 static std::string show_op(const Op &o) {
   if (o.k == PASS) return "pass";
   if (o.k == RAW) return std::string("raw(") + kRaw[o.kind] + ")";
-  char b[64]; snprintf(b, sizeof b, "req(%s,d%d,%s)", kKind[o.kind], o.delay, kSeg[o.seg]); return b;
+  if (o.k == RECONN) return "reconn(c" + std::to_string(o.conn) + ")";
+  char b[96]; int n = snprintf(b, sizeof b, "req(%s,d%d,%s", kKindDef[o.kind].name, o.delay, kSeg[o.seg]);
+  if (o.conn) n += snprintf(b + n, sizeof b - n, ",c%d", o.conn);
+  if (o.nd) n += snprintf(b + n, sizeof b - n, ",n%d", o.nd);
+  if (o.big) n += snprintf(b + n, sizeof b - n, ",big");
+  snprintf(b + n, sizeof b - n, ")"); return b;
 }
 static bool parse_hist(const std::string &s, std::vector<Op> &h) {
   size_t p = 0;
   while (p < s.size()) {
     while (p < s.size() && s[p] == ' ') p++; if (p >= s.size()) break;
     size_t e = s.find(' ', p); std::string t = s.substr(p, e == std::string::npos ? std::string::npos : e - p); p = e == std::string::npos ? s.size() : e;
-    if (t == "pass") { h.push_back({PASS, 0, 0, 0}); continue; }
-    if (t == "raw(bad-content-length)") { h.push_back({RAW, BAD_CONTENT_LENGTH, 0, 0}); continue; }
-    if (t == "raw(bad-method)") { h.push_back({RAW, BAD_METHOD, 0, 0}); continue; }
-    char k[16], g[16]; int d; if (sscanf(t.c_str(), "req(%15[a-z0-9],d%d,%15[a-z])", k, &d, g) != 3) return false;
-    Op o{REQ, 0, d, 0}; for (int i = 0; i < 3; i++) if (!strcmp(k, kKind[i])) o.kind = i;
-    for (int i = 0; i < 4; i++) if (!strcmp(g, kSeg[i])) o.seg = i;
+    if (t == "pass") { h.push_back(Op{PASS, 0, 0, 0, 0, 0, 0}); continue; }
+    if (t == "raw(bad-content-length)") { h.push_back(Op{RAW, BAD_CONTENT_LENGTH, 0, 0, 0, 0, 0}); continue; }
+    if (t == "raw(bad-method)") { h.push_back(Op{RAW, BAD_METHOD, 0, 0, 0, 0, 0}); continue; }
+    if (t.compare(0, 8, "reconn(c") == 0) { h.push_back(Op{RECONN, 0, 0, 0, atoi(t.c_str() + 8), 0, 0}); continue; }
+    if (t.compare(0, 4, "req(") != 0 || t.back() != ')') return false;
+    std::vector<std::string> f; { std::string in = t.substr(4, t.size() - 5); size_t q = 0; for (;;) { size_t c = in.find(',', q); f.push_back(in.substr(q, c == std::string::npos ? std::string::npos : c - q)); if (c == std::string::npos) break; q = c + 1; } }
+    if (f.size() < 3) return false;
+    Op o = mkreq(-1, atoi(f[1].c_str() + 1), -1);
+    for (int i = 0; i < NKIND; i++) if (f[0] == kKindDef[i].name) o.kind = i;
+    for (int i = 0; i < 4; i++) if (f[2] == kSeg[i]) o.seg = i;
+    if (o.kind < 0 || o.seg < 0) return false;
+    for (size_t i = 3; i < f.size(); i++) { if (f[i] == "big") o.big = 1; else if (f[i][0] == 'c') o.conn = atoi(f[i].c_str() + 1); else if (f[i][0] == 'n') o.nd = atoi(f[i].c_str() + 1); else return false; }
     h.push_back(o);
   }
   return true;
@@ -280,7 +420,8 @@ static std::string run_history(const std::vector<Op> &h, std::string &viol, bool
   if (w.viol.empty()) w.settle_and_judge();
   if (verbose) {
     printf("canon: %s\nafter settling: %s\ndelivered:", c.c_str(), w.canon().c_str()); for (int d : w.delivered) printf(" r%d", d);
-    printf("\nresponses received:"); for (int t : w.tags) printf(" r%d", t); printf("  eof=%d rx_bytes=%zu\nverdict: %s\n", (int)w.eof, w.rx.size(), w.viol.empty() ? "ok" : w.viol.c_str());
+    for (size_t ci = 0; ci < w.cl.size(); ci++) { Client &k = w.cl[ci]; printf("\nconnection %zu (client slot %d%s): responses received:", ci, k.slot, k.client_closed ? ", closed by the client" : ""); for (int t : k.tags) printf(" r%d", t); printf("  eof=%d rx_bytes=%zu", (int)k.eof, k.rx.size()); }
+    printf("\nverdict: %s\n", w.viol.empty() ? "ok" : w.viol.c_str());
   }
   viol = w.viol;
   w.teardown();
@@ -289,13 +430,21 @@ static std::string run_history(const std::vector<Op> &h, std::string &viol, bool
 
 int main(int argc, char **argv) {
   g_transport = argc > 1 ? argv[1] : "unix"; g_engine = argc > 2 ? argv[2] : "epoll";
-  if (argc > 4 && !strcmp(argv[3], "replay")) {
+  if (argc > 4 && !strcmp(argv[3], "replay")) {      // replay "<history>" [lane]
+    if (argc > 5) set_lane(argv[5]);
     std::vector<Op> h; if (!parse_hist(argv[4], h)) { fprintf(stderr, "bad history\n"); return 0; }
+    for (auto &o : h) if (o.conn >= g_nclients) { fprintf(stderr, "history uses client slot %d: replay it with the lane it came from (multi)\n", o.conn); return 0; }
     std::string v; run_history(h, v, true); return 0;
   }
   size_t depth = argc > 3 ? atoi(argv[3]) : 6; int maxreq = argc > 4 ? atoi(argv[4]) : 3;
-  bool keep_only = argc > 5 && !strcmp(argv[5], "keeponly");     // lane: longer pipelines of plain keep-alive requests, every completion order
-  hx::Explorer<Op> ex; ex.name = g_transport + "/" + g_engine; if (argc > 5) ex.name += std::string("/") + argv[5];
+  // lanes: ""       = the full single-connection alphabet (keep | close | http10; delays 0-2; alone | glued | cut | cutm; malformed requests)
+  //        keeponly = longer pipelines of plain keep-alive requests, every completion order
+  //        hdr      = Connection header variants (keep-alive on 1.1 and 1.0, multi-token values) next to the closing kinds
+  //        big      = responses that need several partial socket writes (server-side SO_SNDBUF minimal), mixed with small ones
+  //        multi    = two connections at once + the client closing a connection (work outstanding or not) and reconnecting
+  //        mw       = two callbacks: the first defers next() by 0-2 passes, the second (a Middleware object) answers
+  std::string lane = argc > 5 ? argv[5] : ""; set_lane(lane);
+  hx::Explorer<Op> ex; ex.name = g_transport + "/" + g_engine; if (!lane.empty()) ex.name += "/" + lane;
   ex.deadline_s = hx::deadline_from_env(600);
   ex.fork_workers = (int)hx::env_int("VERIF_WORKERS", 4);
   ex.child_timeout_s = 120; ex.max_viol_print = 1000000;     // the per-signature limit (3) still applies
@@ -304,17 +453,28 @@ int main(int argc, char **argv) {
   ex.sig = [](const std::string &v) {
     if (v.compare(0, 6, "crash:") == 0 && v.find("uncaught-exception") != std::string::npos && v.find("stoi") != std::string::npos) return std::string("server-terminates-on-uncaught-stoi-exception-from-content-length");
     return v.substr(0, v.find(' ')); };
+  const Op PASSOP{PASS, 0, 0, 0, 0, 0, 0};
   ex.menu = [&](const std::vector<Op> &h) {
-    std::vector<Op> m; int nreq = 0; bool glued_open = false, bad = false;
-    for (auto &o : h) { if (o.k == REQ) { nreq++; glued_open = (o.seg == GLUED); } if (o.k == RAW) { bad = true; glued_open = false; } }
-    if (keep_only) { if (nreq < maxreq) for (int seg : {GLUED, ALONE}) for (int d : {0, 1, 2}) m.push_back({REQ, KEEP, d, seg}); if (!glued_open) m.push_back({PASS, 0, 0, 0}); return m; }
-    if (nreq < maxreq && !bad) {
-      for (int seg : {ALONE, GLUED}) for (int kind : {KEEP, CLOSE, HTTP10}) for (int d : {0, 1, 2}) m.push_back({REQ, kind, d, seg});
-      for (int kind : {KEEP, CLOSE, HTTP10}) for (int d : {0, 1}) m.push_back({REQ, kind, d, CUT});
-      m.push_back({REQ, KEEP, 0, CUTM});
-      for (int v : {BAD_CONTENT_LENGTH, BAD_METHOD}) m.push_back({RAW, v, 0, 0});
+    std::vector<Op> m; int nreq = 0, nrec = 0; bool glued_open = false, bad = false, used1 = false;
+    for (auto &o : h) { if (o.k == REQ) { nreq++; glued_open = (o.seg == GLUED); if (o.conn == 1) used1 = true; } if (o.k == RAW) { bad = true; glued_open = false; } if (o.k == RECONN) nrec++; }
+    bool more = nreq < maxreq && !bad;
+    if (lane == "keeponly") { if (more) for (int seg : {GLUED, ALONE}) for (int d : {0, 1, 2, 3}) m.push_back(mkreq(KEEP, d, seg)); }      // delays 0-3: 4 requests can complete fully reversed
+    else if (lane == "hdr") { if (more) for (int seg : {ALONE, GLUED}) for (int kind : {KEEP11H, KEEP10H, KEEP10TE, CLOSE11TE, CLOSE}) for (int d : {0, 1}) m.push_back(mkreq(kind, d, seg)); }
+    else if (lane == "big") { if (more) for (int seg : {ALONE, GLUED}) for (int kind : {KEEP, CLOSE}) for (int big : {1, 0}) for (int d : {0, 1}) m.push_back(mkreq(kind, d, seg, 0, 0, big)); }
+    else if (lane == "mw") { if (more) { for (int kind : {KEEP, CLOSE}) for (int nd : {0, 1, 2}) for (int d : {0, 1}) m.push_back(mkreq(kind, d, ALONE, 0, nd));
+                                         for (int kind : {KEEP, CLOSE}) for (int nd : {0, 2}) m.push_back(mkreq(kind, 0, GLUED, 0, nd)); } }
+    else if (lane == "multi") {
+      // client slot 1 sends only after slot 0 has sent (the two slots are interchangeable until then)
+      if (more) for (int conn : {0, 1}) { if (conn == 1 && nreq == 0) continue; for (int kind : {KEEP, CLOSE}) for (int d : {0, 1, 2}) m.push_back(mkreq(kind, d, ALONE, conn)); }
+      if (nrec < 2 && nreq > 0) for (int conn : {0, 1}) { if (conn == 1 && !used1) continue; m.push_back(Op{RECONN, 0, 0, 0, conn, 0, 0}); }
     }
-    if (!glued_open) m.push_back({PASS, 0, 0, 0});      // a pass while bytes are still held back by the client would only reorder equivalent histories
+    else if (more) {
+      for (int seg : {ALONE, GLUED}) for (int kind : {KEEP, CLOSE, HTTP10}) for (int d : {0, 1, 2}) m.push_back(mkreq(kind, d, seg));
+      for (int kind : {KEEP, CLOSE, HTTP10}) for (int d : {0, 1}) m.push_back(mkreq(kind, d, CUT));
+      m.push_back(mkreq(KEEP, 0, CUTM));
+      for (int v : {BAD_CONTENT_LENGTH, BAD_METHOD}) m.push_back(Op{RAW, v, 0, 0, 0, 0, 0});
+    }
+    if (!glued_open) m.push_back(PASSOP);      // a pass while bytes are still held back by the client would only reorder equivalent histories
     return m; };
   ex.run = [&](const std::vector<Op> &h, std::string &viol) { return run_history(h, viol, false); };
   ex.explore(depth);
